@@ -324,13 +324,34 @@ func c13Once(c *mon.Ctx) {
 	for _, n := range sortedNames {
 		neigh = append(neigh, n+"_", n+"0", n[:len(n)-1])
 	}
+	// ... the same rule under the other two severity prefixes (a name the lint might have carried once, or might be
+	// confused with), and the listed name wrapped in characters that LOOK like nothing but are not blanks: a byte order
+	// mark, zero-width space / joiner, soft hyphen, NUL, a combining mark, a full-width first letter. Only what
+	// strings.TrimSpace removes counts as a surrounding blank; everything else makes an unknown name.
+	decor := []func(string) string{
+		func(n string) string { return "\ufeff" + n }, func(n string) string { return n + "\ufeff" }, func(n string) string { return "\u200b" + n },
+		func(n string) string { return n + "\u200d" }, func(n string) string { return n + "\x00" }, func(n string) string { return "\x00" + n },
+		func(n string) string { return n[:2] + "\u00ad" + n[2:] }, func(n string) string { return n + "\u0301" }, func(n string) string { return "\uff45" + n[1:] },
+		func(n string) string { return " \ufeff" + n + " " }, func(n string) string { return strings.Replace(n, "_", "-", 1) }, func(n string) string { return n + "\u2060" },
+	}
+	for ni, n := range sortedNames {
+		for _, p := range []string{"e_", "w_", "n_"} {
+			if !strings.HasPrefix(n, p) && len(n) > 2 {
+				neigh = append(neigh, p+n[2:])
+			}
+		}
+		for d := 0; d < c.Pick(2, len(decor)); d++ {
+			neigh = append(neigh, decor[(ni+d*5)%len(decor)](n))
+		}
+	}
+	extrasStart := len(neigh)
 	if len(sortedNames) > 0 {
 		first, last := sortedNames[0], sortedNames[len(sortedNames)-1]
 		neigh = append(neigh, "zzzz", "~", "\u00ff", "x_no_such_lint", "z", last+"a", last+"z", "0", "a", "A", "_", "!", first[:1], first[:len(first)/2], "e", "e_", "w_", "n_", "w_zzzz", "n_zzzz", "e_zzzz", "e_0")
 	}
 	nNeigh := 0
 	for k, u := range neigh {
-		if listed[u] || u == "" {
+		if listed[strings.TrimSpace(u)] || strings.TrimSpace(u) == "" {
 			continue
 		}
 		nNeigh++
@@ -344,7 +365,7 @@ func c13Once(c *mon.Ctx) {
 				c.V("unknown-name-accepted|lib-exclude", fmt.Sprintf("Filter accepted the exclude name list %q although %q is not a registered lint (a neighbour of listed names, list shape %d)", list, u, vi), "", nil, nil)
 			}
 		}
-		if k >= len(sortedNames)*3 || k%c.Pick(97, 11) == 0 { // the strings beyond the ends always, the per-name neighbours sampled
+		if k >= extrasStart || k%c.Pick(97, 11) == 0 { // the strings beyond the ends always, the per-name neighbours sampled
 			if _, _, code := cliListNames("-includeNames", valid+","+u); code == 0 {
 				c.V("unknown-name-accepted|cli-include", fmt.Sprintf("zlint -includeNames %q exits 0", valid+","+u), "", nil, nil)
 			}
